@@ -361,6 +361,25 @@ def c09(tier):
         cases.append(("c09-watch-again-%d" % i, "mem", steps))
     steps = [op(1, "SET", "k", "0"), op(0, "WATCH", "k", "k"), op(1, "SET", "k", "1"), op(0, "MULTI"), op(0, "SET", "done", "1"), op(0, "EXEC"), op(0, "GET", "done")]
     cases.append(("c09-watch-twice-in-one", "mem", steps))
+    # C08: a command that fails while it is being queued aborts the transaction - also when the failure is a recovered
+    # panic in the argument parsing of the handler (before execCommand), not an ordinary error reply
+    bad = [["SCAN", "0", "COUNT"], ["SCAN", "0", "MATCH"], ["ZRANGEBYSCORE", "z", "0", "1", "LIMIT", "0"], ["ZUNIONSTORE", "d", "5", "a"],
+           ["GET"], ["NOSUCHCOMMAND", "x"], ["INCRBY", "n", "notanumber"], ["LRANGE", "l"], ["ZADD", "z", "nan", "m"], ["SET", "k"], ["EXPIRE", "k", "x"]]
+    for i, b in enumerate(bad):
+        for pos in (0, 1, 2):
+            q = [op(0, "SET", "a0", "1"), op(0, "SET", "b0", "2")]
+            q.insert(pos, op(0, *b))
+            steps = [op(1, "SET", "seen", "0"), op(0, "MULTI")] + q + [op(0, "EXEC"), op(0, "GET", "a0"), op(0, "GET", "b0"), op(0, "PING")]
+            cases.append(("c08-queue-time-failure-%d-%d-%s" % (i, pos, b[0]), "mem", steps))
+    # a queued command that fails when EXEC runs it does not stop the queue: the commands after it still run, every reply is there
+    for i, (setup, failing) in enumerate(((["SET", "s", "str"], ["LPUSH", "s", "x"]), (["SET", "s", "str"], ["HSET", "s", "f", "v"]), (["SET", "s", "str"], ["SADD", "s", "m"]),
+                                          (["SET", "s", "str"], ["ZADD", "s", "1", "m"]), (["SET", "s", "str"], ["RPOP", "s"]), (["RPUSH", "s", "a"], ["INCR", "s"]),
+                                          (["RPUSH", "s", "a"], ["GET", "s"]))):
+        for pos in (0, 1, 2):
+            q = [op(0, "INCR", "cnt"), op(0, "INCR", "cnt")]
+            q.insert(pos, op(0, *failing))
+            steps = [op(1, *setup), op(0, "MULTI")] + q + [op(0, "EXEC"), op(0, "GET", "cnt"), op(0, "ECHO", "marker")]
+            cases.append(("c08-run-time-failure-%d-%d-%s" % (i, pos, failing[0]), "mem", steps))
     return cases
 
 
